@@ -1,20 +1,182 @@
 """Which obligations decide which property, per tier, with their stated bounds."""
+import json, os
 
-HARNESS_BOUNDS = {
-    'c02::c02_accept_iff_wellformed_240':
-        'all 2^(8*240) buffers x every input length n <= 240 (every control-byte pair, every declared length 0..65535 vs <= 240 present bytes); unwind 14',
+_HERE = os.path.dirname(os.path.abspath(__file__))
+_c09 = json.load(open(os.path.join(_HERE, '..', 'kani', 'c09_harnesses.json')))
+
+# harness -> bound text (goes into the evidence file)
+HARNESS_BOUNDS = {}
+# harness -> extra `cargo kani` arguments
+HARNESS_ARGS = {}
+
+FS300 = ['-Z', 'unstable-options', '--cbmc-args', '--max-field-sensitivity-array-size', '300']
+
+
+def H(name, bound, args=None):
+    HARNESS_BOUNDS[name] = bound
+    if args:
+        HARNESS_ARGS[name] = args
+    return name
+
+
+B240 = 'all 2^(8*240) buffers x every input length n <= 240 (every control-byte pair; every declared length 0..65535 in relation to <= 240 present bytes)'
+
+K_TRUST = ['Kani 0.68 / CBMC 6.11 model the compiled MIR of ppp and of std (Vec, slices, Cow, io::Write, memcmp/memcpy) faithfully',
+           'the reference decoders/encoders in /verif/kani/src/refmodel.rs and in the harnesses transcribe the PROXY protocol specification correctly',
+           'io::Error values and output Vecs are mem::forget-ed in harnesses: destructors are outside every claim']
+
+PROPS = {}
+
+PROPS['C02'] = {
+    'kani': {'quick': [H('c02::c02_accept_iff_wellformed_240', B240 + '; unwind 14')], 'thorough': []},
+    'kani_functions': ['<ppp::v2::Header as TryFrom<&[u8]>>::try_from', 'ppp::v2::parse_addresses', 'ppp::v2::AddressFamily::byte_length'],
+    'assumptions': K_TRUST,
+    'outside_claim': ['inputs longer than 240 bytes (the parser never reads past 16+216 address bytes; acceptance of longer declared lengths is covered only as Partial verdicts)'],
 }
 
-PROPS = {
-    'C02': {
-        'kani': {
-            'quick': ['c02::c02_accept_iff_wellformed_240'],
-            'thorough': [],
-        },
-        'kani_functions': ['<ppp::v2::Header as TryFrom<&[u8]>>::try_from', 'ppp::v2::parse_addresses',
-                           'ppp::v2::AddressFamily::byte_length'],
-        'assumptions': ['CBMC/Kani model of the compiled Rust code and of std (Vec, slices, memcmp) is faithful',
-                        'reference decoder /verif/kani/src/refmodel.rs transcribes the PROXY v2 specification correctly'],
-        'outside_claim': ['inputs longer than 240 bytes except as covered by the long-buffer harness (thorough)'],
+PROPS['C14'] = {
+    'kani': {'quick': [H('c14::c14_views_partition_240', B240 + '; every accessor on every accepted header; unwind 14')], 'thorough': []},
+    'kani_functions': ['v2::Header::{length,len,is_empty,address_family,address_bytes,tlv_bytes,tlvs,as_bytes}', 'v2::TypeLengthValues::{len,is_empty,as_bytes}',
+                       'v2::Addresses::{address_family,len,is_empty}', 'v2::AddressFamily::byte_length', 'From<AddressFamily> for u16', '<v2::Header as TryFrom<&[u8]>>::try_from'],
+    'assumptions': K_TRUST,
+    'outside_claim': ['headers longer than 240 bytes'],
+}
+
+PROPS['C17'] = {
+    'kani': {'quick': [H('c17::c17_counts_exact_240', B240 + ' x every completion length m in (n, min(240, 16+len)]; unwind 14')], 'thorough': []},
+    'kani_functions': ['<v2::Header as TryFrom<&[u8]>>::try_from', 'impl PartialResult for v2::ParseError', 'impl PartialResult for Result<T,E>'],
+    'assumptions': K_TRUST,
+    'outside_claim': ['the "supplying the missing bytes gives success" clause for declared lengths whose completion exceeds 240 bytes (> 224); the counts themselves are covered for all 65536 declared lengths'],
+}
+
+PROPS['C11'] = {
+    'kani': {
+        'quick': [H('c11::c11_walk_16', 'every TLV section of <= 16 bytes (all contents, all lengths n), full walk against a reference cursor, one extra next() after the end; unwind 8'),
+                  H('c11::c11_long_value_300', 'section of <= 300 bytes whose first 6 bytes are symbolic and the rest zero: values of 0..297 bytes actually yielded, every declared length 0..65535; first two items'),
+                  H('c11::c11_header_section_is_payload_tail_240', B240 + ': tlvs() section = payload after the address block, first item read from there')],
+        'thorough': [H('c11::c11_walk_24', 'every TLV section of <= 24 bytes, full walk; unwind 11')],
     },
+    'kani_functions': ['<v2::TypeLengthValues as Iterator>::next', 'From<&[u8]> for TypeLengthValues', 'v2::Header::{tlvs,tlv_bytes,address_bytes_end}', 'TypeLengthValue::{len,is_empty}'],
+    'assumptions': K_TRUST,
+    'outside_claim': ['sections longer than 24 bytes with fully symbolic content', 'values longer than 297 bytes being yielded (65535-byte values)'],
+}
+
+PROPS['C19'] = {
+    'kani': {'quick': [H('c19::c19_ipv4_new_roles', 'all values: 2 x 32-bit addresses, 2 x 16-bit ports; instantiations T = Ipv4Addr, [u8;4], u32'),
+                       H('c19::c19_ipv6_new_roles', 'all values: 2 x 128-bit addresses, 2 ports; instantiations T = Ipv6Addr, [u8;16], [u16;8], u128'),
+                       H('c19::c19_unix_new_roles', 'all 2 x 108-byte paths'),
+                       H('c19::c19_socket_pair_conversions', 'all four family combinations of (SocketAddr, SocketAddr), all ip/port/flowinfo/scope values')], 'thorough': []},
+    'kani_functions': ['ip::IPv4::new', 'ip::IPv6::new', 'v2::Unix::new', 'v1::Addresses::{new_tcp4,new_tcp6}', 'From<IPv4|IPv6|Unix> for v1/v2::Addresses', 'From<(SocketAddr,SocketAddr)> for v1::Addresses and v2::Addresses'],
+    'assumptions': K_TRUST,
+    'outside_claim': ['generic instantiations of IPv4::new / IPv6::new other than the listed ones'],
+}
+
+_ints = ['u8', 'u16', 'u32', 'u64', 'u128', 'usize', 'i8', 'i16', 'i32', 'i64', 'i128', 'isize']
+PROPS['C20'] = {
+    'kani': {
+        'quick': [H('c20::c20_int_%s' % t, 'all values of %s; writer pre-filled with 3 symbolic bytes; write_to, to_bytes and the blanket &T impl' % t) for t in _ints] + [
+            H('c20::c20_addresses_ipv4', 'all IPv4 address blocks, 3-byte symbolic prefix'),
+            H('c20::c20_addresses_ipv6', 'all IPv6 address blocks, 3-byte symbolic prefix'),
+            H('c20::c20_addresses_unix_and_unspecified', 'all Unix address blocks and the unspecified value, 3-byte symbolic prefix'),
+            H('c20::c20_tlv_len0', 'TLV / (u8,&[u8]) / (Type,&[u8]) with a 0-byte value, symbolic type'),
+            H('c20::c20_tlv_len1', 'same, 1-byte symbolic value'),
+            H('c20::c20_tlv_len3', 'same, 3-byte symbolic value'),
+            H('c20::c20_slice_section_type', '[u8] of 5 and 0 bytes, TypeLengthValues of 5 raw bytes, Type::SSLCipher'),
+            H('c20::c20_oversize_refused_65536', 'slice / TLV / pair of literal length 65536 (zero content): refused, writer unchanged'),
+            H('c20::c20_oversize_refused_70000', 'same, literal length 70000'),
+        ],
+        'thorough': [H('c20::c20_tlv_len300', 'TLV / pairs with a 300-byte symbolic value (length needs the high byte)'),
+                     H('c20::c20_oversize_slice_refused_symbolic_len', 'slice of every length n in (65535, 70000] (zero content): refused, writer unchanged')],
+    },
+    'kani_timeout': {'quick': 600, 'thorough': 1800},
+    'kani_functions': ['impl Write for v2::Writer (write)', 'Writer::{finish, from}', 'WriteToHeader::to_bytes', 'write_to for Addresses, TypeLengthValue, (T,&[u8]) with T=u8 and T=Type, TypeLengthValues, [u8], &T, Type, and the 12 integer impls'],
+    'assumptions': K_TRUST,
+    'outside_claim': ['TLV / slice values of 301..65535 bytes bytewise (length arithmetic for arbitrary sizes is decided by Engine M when built)',
+                      'a writer already above its size limit (the property quantifies over writers below it)'],
+}
+
+PROPS['C07'] = {
+    'kani': {
+        'quick': [H('c07::' + n, 'family/TLV shape in the name; command, transport, all address bits, TLV type bytes and TLV value bytes symbolic; value lengths literal')
+                  for n in ['c07_unspec_0tlv', 'c07_unspec_1tlv_3', 'c07_ipv4_0tlv', 'c07_ipv4_1tlv_1', 'c07_ipv4_2tlv_0_3', 'c07_ipv4_2tlv_3_1',
+                            'c07_ipv6_0tlv', 'c07_ipv6_2tlv_1_3']] +
+                 [H('c07::c07_unix_0tlv', 'unix family, no TLV; all 216 address bytes symbolic', FS300),
+                  H('c07::c07_unix_1tlv_3', 'unix family, one 3-byte TLV', FS300),
+                  H('c07::c07_registered_type_codes', 'the 12 named TLV types (symbolic choice) through u8::from and on the wire via write_tlv')],
+        'thorough': [H('c07::' + n, 'family/TLV shape in the name; everything but the value lengths symbolic')
+                     for n in ['c07_ipv4_2tlv_2_5', 'c07_ipv4_2tlv_8_8', 'c07_ipv4_1tlv_40', 'c07_ipv6_1tlv_5', 'c07_ipv6_2tlv_8_2', 'c07_unspec_2tlv_1_1']] +
+                    [H('c07::c07_unix_2tlv_1_0', 'unix family, two TLVs of 1 and 0 bytes', FS300)],
+    },
+    'kani_functions': ['v2::Builder::{with_addresses, write_tlv, write_payload, write_internal, write_header, build}', 'Writer', 'write_to for Addresses and TypeLengthValue',
+                       'BitOr impls for Version|Command and AddressFamily|Protocol', 'From<Type> for u8', '<v2::Header as TryFrom<&[u8]>>::try_from', 'TypeLengthValues::next'],
+    'assumptions': K_TRUST,
+    'outside_claim': ['TLV lists of more than 2 items; value lengths other than the instantiated literals {0,1,2,3,5,8,40}', 'encodings near the 65535-byte limit (see C09)'],
+}
+
+_c13_q = ['c13_unspec_0', 'c13_unspec_7', 'c13_ipv4_0', 'c13_ipv4_7_wf', 'c13_ipv6_7_wf']
+_c13_t = ['c13_ipv4_7_raw', 'c13_ipv4_3_wf', 'c13_ipv4_4_wf', 'c13_ipv4_2_raw', 'c13_ipv6_0', 'c13_ipv6_4_raw', 'c13_unspec_12']
+PROPS['C13'] = {
+    'kani': {
+        'quick': [H('c13::' + n, 'literal control bytes and total length as in the name (family block + TLV section bytes); all address and TLV contents symbolic; rebuilt four ways (raw views, TypeLengthValues encoder, decoded address value, item by item when well-formed)') for n in _c13_q] +
+                 [H('c13::c13_unix_0', 'unix family, no TLV section, all 216 address bytes symbolic', FS300)],
+        'thorough': [H('c13::' + n, 'literal control bytes / lengths as in the name; contents symbolic') for n in _c13_t] +
+                    [H('c13::c13_unix_7_wf', 'unix family + one 4-byte TLV', FS300), H('c13::c13_unix_3_raw', 'unix family + 3 raw TLV bytes', FS300)],
+    },
+    'kani_functions': ['<v2::Header as TryFrom<&[u8]>>::try_from', 'Header::{address_bytes, tlv_bytes, tlvs, as_bytes}', 'Builder::{new, with_addresses, write_payload, write_payloads, write_tlv, build}',
+                       'write_to for [u8], TypeLengthValues, TypeLengthValue, Addresses', 'TypeLengthValues::next'],
+    'assumptions': K_TRUST + ['header views are read element-wise into literal-size local arrays before being handed to the builder (CBMC cannot constant-propagate the pointer of the niche-encoded Cow<[u8]>); the decoded TLV is compared element-wise and an equal item over the local copy is re-encoded'],
+    'outside_claim': ['control-byte pairs / payload sizes other than the instantiated literals; TLV sections longer than 12 bytes'],
+}
+
+PROPS['C09'] = {
+    'kani': {
+        'quick': [H('c09::' + n, 'fixed sequence of builder call kinds as in the name after Builder::new (h*) or with_addresses(IPv4) (hv4*); every value symbolic (control bytes, Option<u16> length overrides, integers, 2-byte slices, TLV type/3-byte value)') for n in _c09['quick']],
+        'thorough': [H('c09::' + n, 'fixed three-call sequence of kinds as in the name; every value symbolic') for n in _c09['thorough']],
+    },
+    'kani_timeout': {'quick': 600, 'thorough': 1200},
+    'kani_functions': ['v2::Builder::{new, with_addresses, set_length, reserve_capacity, write_payload, write_payloads, write_tlv, write_internal, write_header, build}', 'Writer::{from, finish, write}', 'WriteToHeader impls for u8, u16, [u8], TypeLengthValue, Addresses'],
+    'assumptions': K_TRUST + ['ghost history interpreter in /verif/kani/src/c09.rs (explicit length in force, expected bytes in call order) states the property correctly'],
+    'outside_claim': ['histories longer than 4 calls; payload pieces longer than 3 bytes; totals near 65535/65536 bytes (CBMC runs out of memory; decided by Engine M on the length arithmetic when built)'],
+}
+PROPS['C10'] = dict(PROPS['C09'])
+
+PROPS['C04'] = {
+    'kani': {'quick': [H('c04::c04_v2_trailer_independent_240', B240 + ' x every re-parse length m in [header length, 240] (same bytes, trailer of every length incl. none)'),
+                       H('c04::c04_v2_other_trailer_64', 'two 64-byte buffers agreeing exactly on the accepted header bytes and arbitrary elsewhere, every n, m <= 64; unwind 66')], 'thorough': []},
+    'kani_functions': ['<v2::Header as TryFrom<&[u8]>>::try_from', 'v2::parse_addresses'],
+    'assumptions': K_TRUST,
+    'outside_claim': ['v1 and auto-detect halves: Engine M (when built)', 'header + trailer longer than 240 bytes'],
+}
+
+PROPS['C05'] = {
+    'kani': {'quick': [H('c05::c05_v2_prefixes_incomplete_240', B240 + ' x every cut m < header length')], 'thorough': []},
+    'kani_functions': ['<v2::Header as TryFrom<&[u8]>>::try_from', 'impl PartialResult for v2::ParseError / Result<T,E> (is_incomplete, is_complete)'],
+    'assumptions': K_TRUST,
+    'outside_claim': ['v1 and auto-detect halves: Engine M (when built)', 'headers longer than 240 bytes'],
+}
+
+PROPS['C12'] = {
+    'kani': {'quick': [H('c12::c12_v2_single_corruption_240', 'every complete well-formed header within ' + B240 + ', one element replaced by every invalid value: signature byte i (every i, every other value), version nibble != 2, command nibble >= 2, family nibble >= 4, transport nibble >= 3, length < family size'),
+                       H('c12::c12_v2_error_blame_exact_240', B240 + ': variant and payload of every v2 verdict equal the reference decoder\'s (first offending element in wire order)')], 'thorough': []},
+    'kani_functions': ['<v2::Header as TryFrom<&[u8]>>::try_from', 'impl PartialResult for v2::ParseError'],
+    'assumptions': K_TRUST,
+    'outside_claim': ['v1 half and the auto-detecting entry point: Engine M (when built)'],
+}
+
+PROPS['C03'] = {
+    'kani': {'quick': [H('c03::c03_v2_accessors_no_panic_240', B240 + ': try_from and every accessor / BitOr / conversion on the result; Kani default checks = the property'),
+                       H('c03::c03_tlv_iteration_terminates_24', 'every TLV section <= 24 bytes: iteration ends within n/3+1 items (loop bounded only by the iterator; unwinding assertion proves termination)')],
+             'thorough': [H('c03::c03_tlv_iteration_terminates_48', 'every TLV section <= 48 bytes; unwind 19')]},
+    'kani_functions': ['<v2::Header as TryFrom<&[u8]>>::try_from', 'all v2::Header accessors', 'TypeLengthValues::{next,len,is_empty,as_bytes}', 'TypeLengthValue::{len,is_empty}', 'BitOr impls'],
+    'assumptions': K_TRUST,
+    'outside_claim': ['v1 entry points, auto-detection, Display: Engine M (when built)', 'core::fmt internals, thiserror-generated Display'],
+}
+
+PROPS['C16'] = {
+    'kani': {'quick': [H('c16::c16_v2_header_owned_48', 'every accepted v2 header within a 48-byte buffer: to_owned equality both ways, views, then the buffer is overwritten with fresh symbolic bytes; unwind 50'),
+                       H('c16::c16_tlv_owned_16', 'first TLV of every section <= 16 bytes: to_owned equality, buffer clobbered'),
+                       H('c16::c16_v1_header_owned_16', 'v1::Header::new(text, tcp4 addresses) for every ASCII text <= 16 bytes: to_owned equality, buffer clobbered')], 'thorough': []},
+    'kani_functions': ['v2::Header::to_owned', 'v2::TypeLengthValue::to_owned', 'v1::Header::{new,to_owned,protocol}', 'derived PartialEq impls'],
+    'assumptions': K_TRUST,
+    'outside_claim': ['agreement of the four v1 entry points: Engine M (when built)', 'owned copies of headers longer than 48 bytes'],
 }
